@@ -210,7 +210,15 @@ func (g *Gateway) handleLegacyProtocol(w http.ResponseWriter, r *http.Request, t
 		}
 		log.Printf("Opening RDGOUT for client %s", id.GetAttribute(identity.AttrClientIp))
 
+		// a repeated RDG_OUT_DATA request for a connection id replaces the channel the
+		// tunnel answers on: the one it replaces is closed, nothing else refers to it
+		t.writeMu.Lock()
+		prev := t.transportOut
 		t.transportOut = out
+		t.writeMu.Unlock()
+		if prev != nil {
+			prev.Close()
+		}
 		verifHook("legacy.out.attached", t)
 		out.SendAccept(true)
 		verifHook("legacy.out.accepted", t)
